@@ -481,5 +481,22 @@ def shrink(case):
             yield c[:10] + ["lax"]
 
 
+# ---------------------------------------------------------------- the source-level tie (tools/py2coq_c16.py)
+
+
+def extra_obligations(tier):
+    """Cookie._quote and Cookie.__str__, and the module-level _cookie_legal_chars / _cookie_is_legal_key / _cookie_translator they
+    use, are translated to Gallina from the source in BAIZE_REPO as it is now (tools/py2coq_c16.py), and coqc re-checks
+    C16/Translated.v against the fresh definitions: legal-key test = M.is_legal_key, value.translate(table) = flat_map M.tr,
+    _quote = M.quote for every text, __str__ = M.cookie_str for every cookie record (strftime an argument that is only
+    assumed to render the format string of the model as M.http_date does).  Next to it: C16/PyLib.v and Lib/PyStr.v are
+    compared with the interpreter by evaluation.  A source the translator refuses is "not applicable" (None), no alarm."""
+    import importlib.util
+    spec = importlib.util.spec_from_file_location("py2coq_c16", os.path.join(core.VERIF, "tools", "py2coq_c16.py"))
+    mod = importlib.util.module_from_spec(spec)
+    spec.loader.exec_module(mod)
+    return mod.obligations(core.REPO, core.VERIF)
+
+
 if __name__ == "__main__":
     core.main(sys.modules[__name__])
